@@ -200,10 +200,12 @@ class AddData(Command):
     label = 'add data'
 
     def do(self, session):
+        self.was_present = self.data in session.data_collection
         session.data_collection.append(self.data)
 
     def undo(self, session):
-        session.data_collection.remove(self.data)
+        if not self.was_present:
+            session.data_collection.remove(self.data)
 
 
 class RemoveData(Command):
@@ -211,10 +213,12 @@ class RemoveData(Command):
     label = 'remove data'
 
     def do(self, session):
+        self.was_present = self.data in session.data_collection
         session.data_collection.remove(self.data)
 
     def undo(self, session):
-        session.data_collection.append(self.data)
+        if self.was_present:
+            session.data_collection.append(self.data)
 
 
 class NewDataViewer(Command):
